@@ -551,4 +551,129 @@ theorem runOps_chrono : ∀ (ops : List Op) (h : History), ops.Pairwise (fun a b
       · obtain ⟨op', hop', hst⟩ := ih2 s hs
         exact ⟨op', List.mem_cons_of_mem _ hop', hst⟩
 
+/-! ### the questions one `generate_service_query` call emits -/
+
+theorem knownAnswers_congr (cache : List Rec) (a b : String) (ty cls : Nat) (now : Int) (h : lower a = lower b) :
+    knownAnswers lower cache a ty cls now = knownAnswers lower cache b ty cls now := by
+  unfold knownAnswers matching
+  rw [h]
+
+/-- every entry of the per-type loop's output is what `askType` emits for one of the types on some history -/
+theorem serviceQuery_mem (cache : List Rec) (now : Int) (qu : Bool) : ∀ (tys : List String) (h : History) (o : QOut),
+    o ∈ (serviceQuery lower cache now qu tys h).1 → ∃ ty ∈ tys, ∃ h', (askType lower cache h' now qu ty).1 = some o
+  | [], _, o, ho => by simp [serviceQuery] at ho
+  | ty :: rest, h, o, ho => by
+    rw [serviceQuery] at ho
+    generalize hr : askType lower cache h now qu ty = r at ho
+    obtain ⟨ro, h1⟩ := r
+    cases ro with
+    | none =>
+      simp only at ho
+      obtain ⟨ty', hm, h', hh⟩ := serviceQuery_mem cache now qu rest h1 o ho
+      exact ⟨ty', List.mem_cons_of_mem _ hm, h', hh⟩
+    | some o1 =>
+      simp only [List.mem_cons] at ho
+      rcases ho with rfl | ho
+      · exact ⟨ty, by simp, h, by rw [hr]⟩
+      · obtain ⟨ty', hm, h', hh⟩ := serviceQuery_mem cache now qu rest h1 o ho
+        exact ⟨ty', List.mem_cons_of_mem _ hm, h', hh⟩
+
+/-- the dict's keys are pairwise different questions -/
+def DistinctKeys (d : List QOut) : Prop := d.Pairwise (fun a b => a.q.beq lower b.q = false)
+
+theorem dictPut_q (d : List QOut) (o : QOut) : ∀ x ∈ dictPut lower d o, x.q = o.q ∨ ∃ y ∈ d, x.q = y.q := by
+  intro x hx
+  unfold dictPut at hx
+  split at hx
+  · obtain ⟨y, hy, rfl⟩ := List.mem_map.1 hx
+    right
+    refine ⟨y, hy, ?_⟩
+    split <;> rfl
+  · rcases List.mem_append.1 hx with hx | hx
+    · exact Or.inr ⟨x, hx, rfl⟩
+    · left; simp only [List.mem_singleton] at hx; rw [hx]
+
+theorem dictPut_distinct {d : List QOut} (hd : DistinctKeys lower d) (o : QOut) : DistinctKeys lower (dictPut lower d o) := by
+  unfold dictPut
+  split
+  · unfold DistinctKeys
+    rw [List.pairwise_map]
+    refine hd.imp ?_
+    intro a b hab
+    have ha : (if a.q.beq lower o.q = true then { a with known := o.known, wire := o.wire } else a).q = a.q := by split <;> rfl
+    have hb : (if b.q.beq lower o.q = true then { b with known := o.known, wire := o.wire } else b).q = b.q := by split <;> rfl
+    rw [ha, hb]; exact hab
+  · rename_i hany
+    unfold DistinctKeys
+    rw [List.pairwise_append]
+    refine ⟨hd, by simp, ?_⟩
+    intro a ha b hb
+    simp only [List.mem_singleton] at hb
+    subst hb
+    cases hab : a.q.beq lower b.q
+    · rfl
+    · exact absurd (List.any_eq_true.2 ⟨a, ha, hab⟩) hany
+
+theorem foldl_dictPut_distinct : ∀ (outs d : List QOut), DistinctKeys lower d → DistinctKeys lower (outs.foldl (dictPut lower) d)
+  | [], _, hd => hd
+  | o :: rest, d, hd => foldl_dictPut_distinct rest _ (dictPut_distinct lower hd o)
+
+/-- an entry of the dict: its key is the question of one loop entry, its value (known answers, wire form) that of a loop entry of the
+same key -/
+def FromLoop (outs : List QOut) (x : QOut) : Prop :=
+  ∃ o1 ∈ outs, ∃ o2 ∈ outs, x.q = o1.q ∧ x.known = o2.known ∧ x.wire = o2.wire ∧ o1.q.beq lower o2.q = true
+
+theorem dictPut_fromLoop (outs : List QOut) {d : List QOut} (hd : ∀ x ∈ d, FromLoop lower outs x) {o : QOut} (ho : o ∈ outs) :
+    ∀ x ∈ dictPut lower d o, FromLoop lower outs x := by
+  intro x hx
+  unfold dictPut at hx
+  split at hx
+  · obtain ⟨y, hy, rfl⟩ := List.mem_map.1 hx
+    obtain ⟨o1, h1, o2, h2, e1, e2, e3, e4⟩ := hd y hy
+    split
+    · rename_i hb
+      refine ⟨o1, h1, o, ho, e1, rfl, rfl, ?_⟩
+      rw [← e1]; exact hb
+    · exact ⟨o1, h1, o2, h2, e1, e2, e3, e4⟩
+  · rcases List.mem_append.1 hx with hx | hx
+    · exact hd x hx
+    · simp only [List.mem_singleton] at hx
+      subst hx
+      exact ⟨x, ho, x, ho, rfl, rfl, rfl, question_beq_refl lower x.q⟩
+
+theorem foldl_dictPut_fromLoop (outs : List QOut) : ∀ (l d : List QOut), (∀ o ∈ l, o ∈ outs) → (∀ x ∈ d, FromLoop lower outs x) →
+    ∀ x ∈ l.foldl (dictPut lower) d, FromLoop lower outs x
+  | [], _, _, hd => hd
+  | o :: rest, d, hl, hd =>
+    foldl_dictPut_fromLoop outs rest _ (fun o' ho' => hl o' (List.mem_cons_of_mem _ ho'))
+      (dictPut_fromLoop lower outs hd (hl o (by simp)))
+
+/-- every loop entry's key is in the dict -/
+theorem foldl_dictPut_complete : ∀ (l d : List QOut) (o : QOut), (o ∈ l ∨ ∃ y ∈ d, y.q.beq lower o.q = true) →
+    ∃ y ∈ l.foldl (dictPut lower) d, y.q.beq lower o.q = true
+  | [], d, o, h => by
+    rcases h with h | h
+    · simp at h
+    · exact h
+  | o1 :: rest, d, o, h => by
+    apply foldl_dictPut_complete rest (dictPut lower d o1) o
+    rcases h with h | ⟨y, hy, hyo⟩
+    · rcases List.mem_cons.1 h with rfl | h
+      · right
+        unfold dictPut
+        split
+        · rename_i hany
+          obtain ⟨y, hy, hyo⟩ := List.any_eq_true.1 hany
+          refine ⟨_, List.mem_map.2 ⟨y, hy, rfl⟩, ?_⟩
+          simp only [hyo, if_true]
+        · exact ⟨o, by simp, question_beq_refl lower o.q⟩
+      · exact Or.inl h
+    · right
+      unfold dictPut
+      split
+      · refine ⟨_, List.mem_map.2 ⟨y, hy, rfl⟩, ?_⟩
+        have : (if y.q.beq lower o1.q = true then { y with known := o1.known, wire := o1.wire } else y).q = y.q := by split <;> rfl
+        rw [this]; exact hyo
+      · exact ⟨y, by simp [hy], hyo⟩
+
 end Zc.QueryGen
